@@ -11,7 +11,7 @@
 //!   sched        in = [init, threads, sched]      one forced schedule
 //!   all          in = [init, threads, slots]      every interleaving, `slots` grants per call
 //!   seq          in = [calls]                     single-threaded API script
-//!   stress       in = [threads, per_thread, v, init]  free-running threads, no hook
+//!   stress       in = [label, threads, per_thread, v, init]  free-running threads, no hook
 //!   transparent  in = [pipe, mode, data, parts, regs, errmodes, poison]
 //!
 //! Metric names are integers: k >= 0 is the string "c<k>", -1 is "execution_time_ms".
@@ -147,6 +147,7 @@ impl Coll for Real {
 #[derive(Clone, Copy, PartialEq)]
 enum Defect {
     Split,        // pre-fix increment_counter: read under one lock, write under another
+    SplitNoYield, // the same, but the second acquisition has no yield point (stress only)
     NoCreate,     // increment of a missing name does nothing
     ReplaceOther, // increment of a non-counter metric replaces it by a counter
     SetAdds,      // set_counter adds instead of overwriting
@@ -187,6 +188,13 @@ impl Coll for Mutant {
                 if self.defect == Defect::Split {
                     drop(inner);
                     self.set(name, new_count);
+                } else if self.defect == Defect::SplitNoYield {
+                    drop(inner);
+                    self.inner
+                        .lock()
+                        .unwrap()
+                        .metrics
+                        .insert(name.to_string(), Box::new(CounterMetric::with_value(name, new_count)));
                 } else {
                     inner
                         .metrics
@@ -262,6 +270,7 @@ fn new_collector() -> Arc<dyn Coll> {
     match std::env::var("C16_MUTANT").ok().as_deref() {
         None | Some("") => Arc::new(Real(MetricsCollector::new())),
         Some("split") => Arc::new(Mutant::new(Defect::Split)),
+        Some("split_noyield") => Arc::new(Mutant::new(Defect::SplitNoYield)),
         Some("nocreate") => Arc::new(Mutant::new(Defect::NoCreate)),
         Some("replace_other") => Arc::new(Mutant::new(Defect::ReplaceOther)),
         Some("set_adds") => Arc::new(Mutant::new(Defect::SetAdds)),
@@ -539,10 +548,10 @@ fn run_seq(calls: &Value) -> Value {
 fn run_stress(input: &Value) -> Value {
     set_yield_hook(None);
     let (nt, per, v, init) = (
-        input[0].as_u64().unwrap(),
         input[1].as_u64().unwrap(),
         input[2].as_u64().unwrap(),
-        input[3].as_i64().unwrap(),
+        input[3].as_u64().unwrap(),
+        input[4].as_i64().unwrap(),
     );
     let c = new_collector();
     if init >= 0 {
@@ -633,7 +642,9 @@ fn run_pipeline(p: &Pipeline, pipe: i64, mode: i64, data: &[i64], parts: usize, 
                     mode,
                     parts,
                     e,
-                    &|(k, vs): (i64, Vec<i64>)| {
+                    &|(k, mut vs): (i64, Vec<i64>)| {
+                        // canonical row: key, then the group's values sorted
+                        vs.sort_unstable();
                         let mut r = vec![k];
                         r.extend(vs);
                         r
@@ -676,6 +687,7 @@ fn run_pipeline(p: &Pipeline, pipe: i64, mode: i64, data: &[i64], parts: usize, 
 }
 
 const BIG: u64 = (1 << 62) - 1;
+const FREE: &str = "free-running threads, no scheduler";
 
 fn run_transparent(input: &Value) -> Value {
     set_yield_hook(None);
@@ -801,12 +813,14 @@ fn generate(seed: u64, tier: Tier, em: &mut Emitter) {
     let thorough = tier == Tier::Thorough;
     let mut rng = SplitMix64::new(seed ^ 0xC16);
 
-    // 1. every interleaving (one grant per call) of 2..3 threads x 1..3 operations:
+    // 1. every interleaving (one grant per call) of 2..3 threads x 1..3 operations (thorough:
+    //    also 4 threads x 1..2 operations):
     //    (a) all increments on one counter, distinct powers of a base so that any lost update
     //        shows in the sum; (b..) seeded mixes of increment / set / register on 1-2 names
     let mixes = if thorough { 8 } else { 2 };
-    for nthreads in 2..=3usize {
-        for shape in shapes(nthreads, 3) {
+    let max_threads = if thorough { 4usize } else { 3 };
+    for nthreads in 2..=max_threads {
+        for shape in shapes(nthreads, if nthreads == 4 { 2 } else { 3 }) {
             // (a)
             let mut k = 0;
             let ts: Vec<Vec<Op>> = shape
@@ -842,9 +856,9 @@ fn generate(seed: u64, tier: Tier, em: &mut Emitter) {
     // 2. the same under the assumption of TWO critical sections per call (a thread that needs
     //    only one skips the surplus grant): drives a re-split read-modify-write through
     //    r1 r2 w1 w2
-    let limit = if thorough { 40_000 } else { 1_000 };
-    for nthreads in 2..=3usize {
-        for shape in shapes(nthreads, 3) {
+    let limit = if thorough { 5_000 } else { 1_000 };
+    for nthreads in 2..=max_threads {
+        for shape in shapes(nthreads, if nthreads == 4 { 2 } else { 3 }) {
             if multinomial(&shape, 2) > limit {
                 continue;
             }
@@ -960,11 +974,11 @@ fn generate(seed: u64, tier: Tier, em: &mut Emitter) {
     // 5. free-running stress, no hook: 16 threads x 20000 increments
     let reps = if thorough { 10 } else { 2 };
     for r in 0..reps {
-        em.case("stress", json!([16, 20000, 1, -1]), true, &["stress"]);
-        em.case("stress", json!([16, 20000, 1 + r, 5]), true, &["stress"]);
+        em.case("stress", json!([FREE, 16, 20000, 1, -1]), true, &["stress"]);
+        em.case("stress", json!([FREE, 16, 20000, 1 + r, 5]), true, &["stress"]);
     }
-    em.case("stress", json!([2, 50000, 3, 0]), true, &["stress"]);
-    em.case("stress", json!([4, 20000, 1, 1]), true, &["stress"]);
+    em.case("stress", json!([FREE, 2, 50000, 3, 0]), true, &["stress"]);
+    em.case("stress", json!([FREE, 4, 20000, 1, 1]), true, &["stress"]);
 
     // 6. pipelines with and without a collector, both engines
     let datas: Vec<Vec<i64>> = vec![
